@@ -264,6 +264,27 @@ def r2_order(ctx):
                 md = astx.unique_def(f.node, missing)
                 good = md is not None and re.fullmatch(r"\w+\.difference\(\w+\)", astx.u(md)) is not None
         break
+    if not good and ctor:
+        # the same construction as a list that is started from the ballot's positions and, only when there are unlisted
+        # candidates, gets them appended as one more position
+        Nc = Normalizer(f.node, inline=False)
+        for nm in src_names:
+            plain = [(st, dv) for st, dv in astx.defs_of(f.node, nm) if dv is not None and not isinstance(st, ast.AugAssign)]
+            apps = [c for c in astx.calls_in(f.node, "append") if astx.is_name(c.func.value, nm) and len(c.args) == 1]
+            others = [n for n in astx.walk_own(f.node) if isinstance(n, ast.Attribute) and astx.is_name(n.value, nm) and n.attr in ("insert", "extend", "pop", "remove", "sort", "reverse", "clear")]
+            if len(plain) != 1 or len(apps) != 1 or others:
+                continue
+            base = astx.strip_wrappers(plain[0][1], ("tuple", "list"))
+            okbase = astx.u(base).endswith(".ranking") or (isinstance(base, astx.LCOMP) and len(base.generators) == 1 and not base.generators[0].ifs
+                                                            and astx.u(base.generators[0].iter).endswith(".ranking")
+                                                            and astx.u(astx.strip_wrappers(base.elt, ("frozenset", "set"))) == astx.u(base.generators[0].target))
+            arg = astx.strip_wrappers(apps[0].args[0], ("frozenset", "set"))
+            lits = literals(Nc.conj(astx.path_condition(f.node, apps[0], pmf, carried=False))) - {f"truthy({astx.u(base.generators[0].iter) if isinstance(base, astx.LCOMP) else astx.u(base)})"}
+            if isinstance(arg, ast.Name) and lits == {f"truthy({arg.id})"} and okbase and plain[0][0].lineno < apps[0].lineno < ctor[0].lineno:
+                md = astx.unique_def(f.node, arg.id)
+                good = md is not None and re.fullmatch(r"\w+\.difference\(\w+\)", astx.u(md)) is not None
+                nr = apps[0]
+                break
     ctx.check(good, f, nr if nr is not None else f.node, "add_missing_cands appends the unlisted candidates as one last tied group", astx.u(nr)[:100] if nr is not None else "",
               "unlisted candidates are not appended as a single final group (only when there are any)")
     if total < 5:
